@@ -39,6 +39,11 @@ func (c *Ctx) c04Case(kind string, sc *scenario, file []byte, ids []*party, nati
 	for i, id := range aids {
 		wrapped[i] = &countingIdentity{inner: id, idx: i, log: &log}
 	}
+	// the file's own identities open it (non-vacuity) — and having done so must not help the others afterwards
+	if own := ownIdentities(sc); len(own) > 0 {
+		r0, _, _ := decryptImpl(bytes.NewReader(file), sc.armor, own)
+		c.count("own-identity-first:" + parseAll(r0)[0].list[0].atom)
+	}
 	impl, out, _ := decryptImpl(bytes.NewReader(file), sc.armor, aids)
 	model := c.decryptModel(file, sc.armor, isx)
 	in := sc.describe()
@@ -63,6 +68,16 @@ func (c *Ctx) c04Case(kind string, sc *scenario, file []byte, ids []*party, nati
 	}
 	c.note(kind+":"+describeIDs(ids)+fmt.Sprint(len(file), file[len(file)-8:]), true)
 	c.count(kind)
+}
+
+func ownIdentities(sc *scenario) []age.Identity {
+	var own []age.Identity
+	for _, p := range sc.parties {
+		if p.id != nil {
+			own = append(own, p.id)
+		}
+	}
+	return own
 }
 
 func checkC04(c *Ctx) {
